@@ -1,10 +1,10 @@
 SPECIFICATION FairSpec
 CONSTANTS
-  Scenarios <- QuickScenarios
+  Scenarios <- LiveScenarios
   LeaveFix = TRUE
   MaxResets = 1
   Faults = TRUE
-  MaxProcs = 1
+  MaxProcs = 0
 PROPERTY Answered
 PROPERTY FaultLeadsToFailure
 PROPERTY StopLeadsToStopped
